@@ -34,7 +34,7 @@ def table():
         rows.append("| `%s` | %s | %s | %s | %s | %s |" % (
             sid, m["change"].replace("|", "/"), "**yes**" if own in caught else "NO",
             ", ".join(r.replace("rule=", "") for r in own_rules[:3]),
-            "-" if first is None else ("caught" if first.get("exit") == 1 else "MISSED"),
+            "-" if first is None else ("caught" if first.get("exit") == 1 else ("INCONCLUSIVE (harness aborted)" if first.get("exit") == 2 else "MISSED")),
             ", ".join(c for c in caught if c != own) or "-"))
     with open(os.path.join(ROOT, "TABLE.md"), "w") as f:
         f.write("| seeded change | what it does | caught by its own property's check (committed machinery) | rules that fired there | first measured run of its round | also caught by |\n|---|---|---|---|---|---|\n")
